@@ -858,7 +858,7 @@ def main():
                  "implementation level): get_permissions_for_user_in_domain is exactly the user's rules of that domain, every "
                  "permission of get_implicit_permissions_for_user(user, domain) is allowed by enforce there, and every allowed "
                  "request is accounted for")
-    chk.build(translators=["rbacapi", "implroles", "implusers", "implresource"], oracle_name="Mgmt")
+    chk.build(translators=["rbacapi", "implroles", "implusers", "implresource", "implperms"], oracle_name="Mgmt")
     if chk.replay_file:
         import json
         c = (json.load(open(chk.replay_file)).get("case") or {})
